@@ -1,43 +1,60 @@
 """C18 bounded stand-in (NOT counted as proved): persistence round trips on real models, float64.
 
 For every model family below an ORIGINAL model is driven through a history
-    fresh (hyper-parameters set)  ->  trained (3 optimiser steps)  ->  predicted (eval mode, caches filled, one test
-    point outside the training range)  ->  new_data (exact GPs: set_train_data in eval mode) / retrained (others)
-and at every save point six copies are taken BEFORE the original is evaluated:
+    fresh (hyper-parameters set)  ->  trained (3 optimiser steps; Adam, NGD for natural variational parameters)
+    ->  predicted (eval mode, prediction under no_grad, caches filled, one test point outside the training range)
+    ->  predicted_with_grad (train(); eval(); prediction with autograd enabled: the caches hold graph tensors)
+    ->  last (exact GPs: prediction + set_train_data(new inputs / targets) in eval mode; others: 2 more steps + prediction)
+and at every save point copies are taken BEFORE the original is evaluated:
     state_dict_fresh        torch.save(state_dict) -> BytesIO -> torch.load -> load_state_dict into a freshly
-                            constructed model (identical constructor arguments)
+                            constructed model (identical constructor arguments, current training data)
     state_dict_fresh_alt    the same, but the fresh model is constructed with OTHER numeric constructor values for
-                            everything the state_dict carries (constraint bounds, prior parameters, initial inducing
-                            points / grids) -- the classes ("architecture") are identical
+                            everything the state_dict is said to carry (constraint bounds, prior parameters, initial
+                            inducing points / grid bounds) -- the classes ("architecture") are identical
     state_dict_used         load_state_dict into a model with other hyper-parameter values that has ALREADY made
                             eval-mode predictions (caches filled); predictions are taken right after loading WITHOUT
                             toggling train()/eval() (toggling would clear the caches and hide a stale cache)
-    state_dict_used_holder  the same, through a plain torch.nn.Module that holds model and likelihood
+    state_dict_used_holder  the same, through a plain torch.nn.Module (not a gpytorch.Module) holding model + likelihood
+    state_dict_used_children the same, but every direct child (mean_module, covar_module, likelihood, variational_strategy)
+                            is saved and loaded on its own (child.load_state_dict): transfer of a kernel / likelihood
     pickle                  pickle.loads(pickle.dumps((model, likelihood)))
     deepcopy                copy.deepcopy((model, likelihood))
-Quantities compared between original and copy (same seeds before every quantity):
+Quantities compared between original and copy (the same seed before every model call):
     as_is_predictive/*      eval-mode models only: predictive mean / covariance without touching the mode first
-    prior/mean, prior/covar train-mode output at the training inputs (approximate GPs: model(x, prior=True))
+    prior/mean, prior/covar train-mode output at the training inputs (approximate GPs: model.forward(x))
     objective, objective_grad   exact MLL / ELBO / predictive log likelihood / sum MLL and its gradient w.r.t. all
                             parameters (the gradient exposes modules shared between copy and original)
     log_prior_terms         every registered prior's log_prob at the current parameter value
-    predictive/mean, covar, y_var   eval-mode predictive distribution at the test points (+ likelihood variance)
-    state_entries           every entry of the state_dict (bounds, prior parameters, flags, grids, random features)
+    predictive/mean, covar, y_mean, y_var   eval-mode predictive distribution at the test points (+ likelihood marginal)
+    state_entries           every entry of the state_dict right after the round trip (bounds, prior parameters, flags,
+                            grids, random features)
+    round_trip              the persistence operation itself completes
     independent_of_original the pickle / deepcopy taken at save point k still gives its own values after the
-                            original has moved on to save point k+1
-Independent oracle (exact GPs with Gaussian noise and no priors, marked oracle=True): the posterior mean / covariance and
-the marginal log likelihood computed with dense torch.linalg (Cholesky) from the ORIGINAL's kernel(x1, x2).to_dense(),
-mean(x) and noise values at the save point; every copy (and the original) is held to it.  gpytorch is only used to
-evaluate kernel / mean / noise parameters.
+                            original has moved on to save point k+1 (control: evaluating the untouched copy twice gives
+                            the same values; where it does not, the check is listed under "skipped")
+Independent oracle (exact GPs with Gaussian noise and no priors, oracle=True): posterior mean / covariance and the
+marginal log likelihood computed with dense torch.linalg (Cholesky) from the ORIGINAL's kernel(x1, x2).to_dense(),
+mean(x) and noise values at the save point; the original and every copy are held to it (where the original itself
+is off the oracle -- not a persistence matter -- that is recorded once under original/dense_oracle and the copies are
+held to the original only).  gpytorch is only used to evaluate kernel / mean / noise parameters.
 
 Tolerance: |a - b| <= 1e-6 * max|reference| + 1e-9 (float64) for every comparison; no looser tolerance is used.
 CiqVariationalStrategy (contour integral quadrature, iterative msMINRES) is deterministic for equal seeds and is held
 to the same tolerance between original and copy (it has no dense oracle).
 
+Read as data, not state: training inputs / targets and the fixed observation noise of FixedNoiseGaussianLikelihood are
+constructor arguments of the "freshly constructed model" (the state_dict does not carry them by design).
+Not comparable (dropped): an eval-mode prediction of an approximate GP whose variational parameters are still
+uninitialised ('fresh'): the first training-mode call initialises them with random noise.
+
 Exceptions: raised under /repo/gpytorch = violation of that key; raised by the persistence operation itself
 (load_state_dict reporting missing / unexpected keys or size mismatches, pickle refusing an object that gpytorch put
-into the model) = violation too (the round trip of a valid model fails); anything else is a harness problem and is
-re-raised (listed under "skipped" only for optional dependencies that are not installed).
+into the model, deepcopy refusing a graph tensor that gpytorch cached in the model) = violation too (the round trip of a
+valid model fails); anything else is a harness problem and is re-raised.
+
+Tiers: quick = one hyper-parameter draw, the holder / children mechanisms at the 'predicted' save point only (children:
+a representative subset of families), independence check for the copies taken at 'fresh'; thorough = every mechanism
+at every save point for every family, two hyper-parameter draws (the second with 5 training steps), every independence check.
 """
 from __future__ import annotations
 
@@ -461,7 +478,7 @@ def _predict(spec, b, out, prefix, with_y=True, Xs=None, grad=False):
 def evaluate(spec, b, as_is=True):
     """all observable quantities of a (model, likelihood) pair; the train / eval mode is restored afterwards"""
     out = {}
-    model, lik = b.model, b.lik
+    model = b.model
     was_training = model.training
     if not was_training and as_is:
         _predict(spec, b, out, "as_is_predictive", with_y=False)
@@ -704,6 +721,8 @@ def close(ref, got):
 
 
 SEED = 4321  # the same seed before every model call: uninitialised variational parameters are initialised (randomly) by whichever call comes first
+CHILDREN_QUICK = ("exact/rbf_scale_constant", "exact/priors_gamma_normal", "multitask/kronecker_rank1", "sgpr/inducing_point_kernel", "kiss/fixed_grid_1d",
+                  "grid/grid_kernel_1d", "model_list/two_exact", "svgp/whitened/cholesky", "svgp/unwhitened/cholesky", "multitask_svgp/lmc/cholesky")
 SAVE_POINTS = ("fresh", "trained", "predicted", "predicted_with_grad", "last")
 MECHS = ("state_dict_fresh", "state_dict_fresh_alt", "state_dict_used", "state_dict_used_holder", "state_dict_used_children", "pickle", "deepcopy")
 
@@ -752,28 +771,32 @@ def run(tier="quick", seed=0, only=None):
 
     try:
         specs = [s for s in make_specs(tier) if only is None or only in s.name]
-        for spec in specs:
+        ndraws = 1 if tier == "quick" else 2
+        for spec, draw in [(sp_, dr) for sp_ in specs for dr in range(ndraws)]:
             ts = time.time()
             torch.manual_seed(seed)
+            sname = spec.name if draw == 0 else f"{spec.name}@draw{draw}"  # further hyper-parameter draws / longer training (thorough tier)
             data0 = (spec.X, spec.Y)
             try:
                 orig = spec.build("orig", data0)
             except ImportError as e:
                 skipped.append({"spec": spec.name, "reason": f"optional dependency missing: {e}"})
                 continue
-            perturb(orig, 0.3 + seed)
+            perturb(orig, 0.3 + seed + 1.3 * draw)
             prev = None
             points = SAVE_POINTS if (tier != "quick" or not spec.heavy) else ("trained", "predicted")
             for sp in points:
-                inp0 = {"family": spec.name, "save_point": sp, "history": list(points[: points.index(sp) + 1]), "seed": seed,
-                        "hyperparameters": "raw parameters of the constructor defaults + 0.25*cos(0.3+seed+i+0.7*j) (i: parameter index, j: element index)"}
+                inp0 = {"family": spec.name, "draw": draw, "save_point": sp, "history": list(points[: points.index(sp) + 1]), "seed": seed,
+                        "hyperparameters": "raw parameters of the constructor defaults + 0.25*cos(0.3+seed+1.3*draw+i+0.7*j) (i: parameter index, j: element index)"}
 
                 def advance(sp=sp):
                     if sp == "trained":
-                        train_steps(spec, orig, 3)
+                        train_steps(spec, orig, 3 + 2 * draw)
                     elif sp == "predicted":
                         predict_history(spec, orig)
                     elif sp == "predicted_with_grad":
+                        for mod in orig.modules():  # back to training mode and on to eval mode again (clears the test-time caches),
+                            mod.train()             # then a prediction with autograd enabled (e.g. for the gradient of an acquisition function)
                         predict_history(spec, orig, grad=True)
                     elif sp == "last":
                         if spec.kind == "exact":
@@ -782,13 +805,13 @@ def run(tier="quick", seed=0, only=None):
                         else:
                             train_steps(spec, orig, 2)
                             predict_history(spec, orig)
-                ok, _ = guarded(f"{spec.name}/{sp}/original/history", advance, inp0)
+                ok, _ = guarded(f"{sname}/{sp}/original/history", advance, inp0)
                 if not ok:
                     break
                 data = current_data(spec, orig)
                 # ---- take the copies before anything else happens to the original
                 copies = {}
-                okb, blobs = guarded(f"{spec.name}/{sp}/state_dict/save", lambda: save_state(orig), inp0)
+                okb, blobs = guarded(f"{sname}/{sp}/state_dict/save", lambda: save_state(orig), inp0)
                 holder_blob = None
                 if okb:
                     def hsave():
@@ -796,10 +819,15 @@ def run(tier="quick", seed=0, only=None):
                         h = Holder(orig.model, None if len(orig.modules()) == 1 else orig.lik)
                         torch.save(h.state_dict(), buf)
                         return buf.getvalue()
-                    _, holder_blob = guarded(f"{spec.name}/{sp}/state_dict_used_holder/save", hsave, inp0)
-                _, child_blobs = guarded(f"{spec.name}/{sp}/state_dict_used_children/save", lambda: save_children(orig), inp0)
+                    _, holder_blob = guarded(f"{sname}/{sp}/state_dict_used_holder/save", hsave, inp0)
+                _, child_blobs = guarded(f"{sname}/{sp}/state_dict_used_children/save", lambda: save_children(orig), inp0)
                 ref_state = state_of(orig)
                 for mech in MECHS:
+                    if tier == "quick" and mech in ("state_dict_used_holder", "state_dict_used_children") and sp != "predicted":
+                        continue
+                    if tier == "quick" and mech == "state_dict_used_children" and spec.name not in CHILDREN_QUICK:
+                        continue
+
                     def make(mech=mech):
                         if mech == "pickle":
                             mdl, lk = _persist(lambda: pickle.loads(pickle.dumps((orig.model, orig.lik))), "pickle.dumps / loads")
@@ -828,34 +856,34 @@ def run(tier="quick", seed=0, only=None):
                         else:
                             load_state(b, blobs)
                         return b
-                    okm, cp = guarded(f"{spec.name}/{sp}/{mech}/round_trip", make, dict(inp0, mechanism=mech))
+                    okm, cp = guarded(f"{sname}/{sp}/{mech}/round_trip", make, dict(inp0, mechanism=mech))
                     if okm and cp is not None:
-                        rec(f"{spec.name}/{sp}/{mech}/round_trip", True, "completed")
+                        rec(f"{sname}/{sp}/{mech}/round_trip", True, "completed")
                         copies[mech] = cp
                         # every state entry, right after the round trip (before any call can create / change buffers)
                         st = state_of(cp)
                         bad = [k for k in ref_state if k not in st or st[k].shape != ref_state[k].shape or not close(ref_state[k].to(D), st[k].to(D))[0]]
                         extra = [k for k in st if k not in ref_state]
-                        rec(f"{spec.name}/{sp}/{mech}/state_entries", not bad and not extra,
+                        rec(f"{sname}/{sp}/{mech}/state_entries", not bad and not extra,
                             f"entries differing from the saved state: {bad[:6]}; entries only in the copy: {extra[:6]}", dict(inp0, mechanism=mech))
                 # ---- the original's own values
-                ok, ref = guarded(f"{spec.name}/{sp}/original/evaluate", lambda: evaluate(spec, orig), inp0)
+                ok, ref = guarded(f"{sname}/{sp}/original/evaluate", lambda: evaluate(spec, orig), inp0)
                 if not ok:
                     break
                 orc = None
                 if spec.oracle:
-                    ok, orc = guarded(f"{spec.name}/{sp}/original/oracle_inputs", lambda: oracle_exact(spec, orig), inp0)
+                    ok, orc = guarded(f"{sname}/{sp}/original/oracle_inputs", lambda: oracle_exact(spec, orig), inp0)
                     if ok:
                         for q, val in list(orc.items()):
                             okq, detail = close(val, ref[q])
-                            rec(f"{spec.name}/{sp}/original/dense_oracle/{q}", okq, f"{detail}; original vs dense float64 GP regression", inp0)
+                            rec(f"{sname}/{sp}/original/dense_oracle/{q}", okq, f"{detail}; original vs dense float64 GP regression", inp0)
                             if not okq:  # the original itself is off (not a persistence matter): the copies are held to the original only
                                 del orc[q]
                 ref_has_as_is = any(q.startswith("as_is") for q in ref)
                 cur = {}
                 for mech, cp in copies.items():
                     inp = dict(inp0, mechanism=mech)
-                    base = f"{spec.name}/{sp}/{mech}"
+                    base = f"{sname}/{sp}/{mech}"
                     # uninitialised variational parameters (approximate GPs at 'fresh') are initialised randomly by the first
                     # training-mode call; an eval-mode prediction before that is not comparable with anything
                     ok, got = guarded(f"{base}/evaluate", lambda: evaluate(spec, cp, as_is=not (spec.kind == "approx" and sp == "fresh")), inp)
@@ -869,13 +897,21 @@ def run(tier="quick", seed=0, only=None):
                             if "as_is_" + q in got:
                                 okq, detail = close(val, got["as_is_" + q])
                                 rec(f"{base}/dense_oracle/as_is_{q}", okq, f"{detail}; copy vs dense float64 GP regression from the original's kernel / mean / noise", inp)
-                    if mech in ("pickle", "deepcopy"):
-                        cur[mech] = (cp, got)
+                    if mech in ("pickle", "deepcopy") and (tier != "quick" or sp == "fresh"):
+                        # control for the independence check below: a second evaluation of the untouched copy must give the same values
+                        # (it does not for kernels whose state moves with the inputs they have seen, e.g. a data-determined KISS-GP grid)
+                        ok2, got2 = guarded(f"{base}/evaluate_again", lambda: evaluate(spec, cp), inp)
+                        if ok2:
+                            moved = [q for q in got if q in got2 and not close(got[q], got2[q])[0]]
+                            if moved:
+                                skipped.append({"spec": f"{base}/independent_of_original", "reason": f"evaluating the copy twice already changes {moved[:4]} (state that moves with the inputs seen); independence not checkable"})
+                            else:
+                                cur[mech] = (cp, got2)
                 # ---- copies of the previous save point must not have moved with the original
                 if prev is not None:
                     psp, pcopies = prev
                     for mech, (cp, vals) in pcopies.items():
-                        base = f"{spec.name}/{psp}/{mech}/independent_of_original"
+                        base = f"{sname}/{psp}/{mech}/independent_of_original"
                         inp = dict(inp0, mechanism=mech, note=f"copy taken at '{psp}', re-evaluated after the original moved on to '{sp}'")
                         ok, got = guarded(f"{base}/evaluate", lambda: evaluate(spec, cp), inp)
                         if ok:
@@ -884,13 +920,13 @@ def run(tier="quick", seed=0, only=None):
                                     okq, detail = close(vals[q], got[q])
                                     rec(f"{base}/{q}", okq, f"{detail}; the copy's values after vs before the original changed", inp)
                 prev = (sp, cur)
-            timing[spec.name] = round(time.time() - ts, 2)
+            timing[sname] = round(time.time() - ts, 2)
     finally:
         torch.set_default_dtype(prev_dtype)
     return {"name": "C18 persistence round trips (state_dict / pickle / deepcopy) vs the original and a dense oracle",
             "evaluations": ev, "distinct_nontrivial": len(seen),
             "bound": "n = 9 training points, 4 test points (one outside the training range), 1-d / 2-d inputs, m = 4..8 inducing points, grids of 6..24 points, "
-                     "batch shapes () / (2,) / (3,), 2..3 tasks; histories fresh -> trained (3 steps) -> predicted -> set_train_data / retrained; "
+                     "batch shapes () / (2,) / (3,), 2..3 tasks; histories fresh -> trained (3 / 5 steps) -> predicted -> predicted with autograd on -> set_train_data / retrained; "
                      f"{len(MECHS)} persistence mechanisms per save point; {len(timing)} model families",
             "rule": "a case = (family / configuration, save point, mechanism, quantity); distinct by that key",
             "samples": samples, "violations": violations, "skipped": skipped, "timing": timing, "wall_s": round(time.time() - t0, 2)}
